@@ -266,6 +266,12 @@ type vErr struct{ kind, detail string } // reader-error | nil | named error | te
 type vMake struct{ size val }
 type vOpaque struct{ why string }
 
+// vTerm is one component of the writer terminal call w.Bytes() / w.BytesWithLength() kept in a local.
+type vTerm struct {
+	name string
+	idx  int
+}
+
 // ---------------------------------------------------------------------------------------------
 
 type frame struct {
@@ -290,6 +296,7 @@ type walker struct {
 	condStack []ast.Expr
 	made      map[string]Path // decode: list field -> count field it was allocated with (p.L = make([]T, p.C))
 	errFirst  bool            // decode: `if readerErr != nil { return readerErr }` has been passed at top level
+	termAt    int             // encode: number of wire ops emitted when w.Bytes()/BytesWithLength() was evaluated into locals (-1: not yet)
 }
 
 func (w *walker) info() *types.Info { return w.frames[len(w.frames)-1].info }
@@ -783,6 +790,20 @@ func (w *walker) returnStmt(s *ast.ReturnStmt) {
 							w.seq.Terminal = "mixed"
 						}
 					}
+				}
+			}
+		}
+		if r.Kind == "other" && len(s.Results) == 2 {
+			a, ok1 := w.eval(s.Results[0]).(vTerm)
+			b, ok2 := w.eval(s.Results[1]).(vTerm)
+			if ok1 && ok2 && a.name == b.name && a.idx == 0 && b.idx == 1 && w.termAt != len(w.seq.Ops)+1 {
+				w.opaque(s.Pos(), "the writer's bytes were taken before the last write")
+			} else if ok1 && ok2 && a.name == b.name && a.idx == 0 && b.idx == 1 {
+				r.Kind, r.Detail = "terminal", a.name
+				if w.seq.Terminal == "" {
+					w.seq.Terminal = a.name
+				} else if w.seq.Terminal != a.name {
+					w.seq.Terminal = "mixed"
 				}
 			}
 		}
@@ -1353,7 +1374,11 @@ func (w *walker) writerCall(e *ast.CallExpr, callee *types.Func) val {
 		default:
 			return vOpaque{name + " of an untracked value " + types.ExprString(e.Args[0])}
 		}
-	case "Bytes", "BytesWithLength", "Written", "Len", "Error", "HexString":
+	case "Bytes", "BytesWithLength":
+		// out, err := w.Bytes(); return out, err - the tuple is remembered so that the return is recognised as the terminal
+		w.termAt = len(w.seq.Ops) + 1
+		return vTuple{vTerm{name, 0}, vTerm{name, 1}}
+	case "Written", "Len", "Error", "HexString":
 		return vOpaque{"writer." + name + " used as a value"}
 	case "Release":
 		return vConst{}
